@@ -345,9 +345,10 @@ class InProtocolBase(ProtocolMixin):
         try:
             retval = _uuid_deserialize[ser_as](retval)
         except (ValueError, TypeError, AttributeError, UnicodeDecodeError,
-                                                         AssertionError) as e:
+                                          AssertionError, OverflowError) as e:
             # AttributeError: uuid.UUID() wants a string
             # AssertionError: uuid.UUID(bytes=) wants bytes
+            # OverflowError: a float infinity where the number is expected
             raise ValidationError(e)
 
         return retval
